@@ -12,7 +12,8 @@ from pathlib import Path
 
 HERE = Path(__file__).resolve().parent
 VERIF = HERE.parent
-REPO = Path("/repo")
+import os
+REPO = Path(os.environ.get("VERIF_REPO", "/repo"))
 
 
 def sh(cmd, **kw):
@@ -22,6 +23,7 @@ def sh(cmd, **kw):
 def main():
     flt = None
     tier = "quick"
+    json_out = None
     args = sys.argv[1:]
     while args:
         a = args.pop(0)
@@ -29,8 +31,10 @@ def main():
             flt = args.pop(0)
         elif a == "--tier":
             tier = args.pop(0)
+        elif a == "--json":
+            json_out = args.pop(0)
     muts = json.loads((HERE / "mutations.json").read_text())
-    assert sh("git -C /repo status --porcelain").stdout.strip() == "", "/repo not clean"
+    assert sh("git -C %s status --porcelain" % REPO).stdout.strip() == "", "repo not clean"
     results = []
     for m in muts:
         if flt and flt not in m["id"] and flt not in " ".join(m["checks"]):
@@ -59,10 +63,12 @@ def main():
             results.append((m["id"], m.get("desc", ""), outcome))
             print("%-40s %s" % (m["id"], outcome))
         finally:
-            sh("git -C /repo checkout -- .")
-    assert sh("git -C /repo status --porcelain").stdout.strip() == "", "/repo not restored"
+            sh("git -C %s checkout -- ." % REPO)
+    assert sh("git -C %s status --porcelain" % REPO).stdout.strip() == "", "repo not restored"
     # evidence files were rewritten by mutated runs: restore committed ones
     sh("cd %s && git checkout -- evidence" % VERIF)
+    if json_out:
+        Path(json_out).write_text(json.dumps([{"id": i, "desc": d, "outcome": o} for i, d, o in results], indent=1))
     missed = [(i, o) for i, d, o in results if any(x != "CAUGHT" for x in (o.values() if isinstance(o, dict) else []))]
     print("\n%d mutations run, %d with a miss" % (len(results), len(missed)))
     for i, o in missed:
